@@ -49,11 +49,13 @@ struct m_raw_array {                /* src/array.c struct cstl_raw_array */
     void * buf;
 };
 
-static struct cstl_guarded_ptr G[NG];
-static cstl_unique_ptr_t U[NU];
-static cstl_shared_ptr_t S[NS];
-static cstl_weak_ptr_t Wk[NW];
-static cstl_array_t A[NA];
+/* object 1 of each kind is initialised by the header's compile-time initializer
+ * and never by its init function (unless a script asks for it) */
+static struct cstl_guarded_ptr G[NG] = { [1] = CSTL_GUARDED_PTR_INITIALIZER(G[1]) };
+static cstl_unique_ptr_t U[NU] = { [1] = CSTL_UNIQUE_PTR_INITIALIZER(U[1]) };
+static cstl_shared_ptr_t S[NS] = { [1] = CSTL_SHARED_PTR_INITIALIZER(S[1]) };
+static cstl_weak_ptr_t Wk[NW] = { [1] = CSTL_WEAK_PTR_INITIALIZER(Wk[1]) };
+static cstl_array_t A[NA] = { [1] = CSTL_ARRAY_INITIALIZER(A[1]) };
 static char ext[NEXT + 1][2 * EXTSZ];   /* the first EXTSZ bytes of each are the buffer */
 
 /* ---------------------------------------------------------------- events */
@@ -491,11 +493,11 @@ static void reset(void)
     nlive = 0;
     evn = 0;
     evbuf[0] = 0;
-    for (i = 0; i < NG; i++) cstl_guarded_ptr_init(&G[i]);
-    for (i = 0; i < NU; i++) cstl_unique_ptr_init(&U[i]);
-    for (i = 0; i < NS; i++) cstl_shared_ptr_init(&S[i]);
-    for (i = 0; i < NW; i++) cstl_weak_ptr_init(&Wk[i]);
-    for (i = 0; i < NA; i++) cstl_array_init(&A[i]);
+    for (i = 0; i < NG; i++) if (i != 1) { H_POISON_OBJ(G[i]); cstl_guarded_ptr_init(&G[i]); }
+    for (i = 0; i < NU; i++) if (i != 1) { H_POISON_OBJ(U[i]); cstl_unique_ptr_init(&U[i]); }
+    for (i = 0; i < NS; i++) if (i != 1) { H_POISON_OBJ(S[i]); cstl_shared_ptr_init(&S[i]); }
+    for (i = 0; i < NW; i++) if (i != 1) { H_POISON_OBJ(Wk[i]); cstl_weak_ptr_init(&Wk[i]); }
+    for (i = 0; i < NA; i++) if (i != 1) { H_POISON_OBJ(A[i]); cstl_array_init(&A[i]); }
 }
 
 static int is_size(const char * s)
